@@ -810,6 +810,10 @@ fn exec_e2e(ops: &[String], stats: &mut Stats) -> Vec<String> {
         if e.presym {
             cmd.arg("--unstable-presymbolicate");
             stats.bump("e2e_opt_presym");
+            // repaired defect C19-presym-badcodeid: a used library whose code id text `CodeId::from_str` rejects
+            if e.files.iter().any(|f| matches!(&f.kind, FileKind::Gen(s) if f.present && s.build_id.as_ref().is_some_and(|b| b.len() <= 4))) {
+                stats.bump("e2e_opt_presym_unparsable_codeid");
+            }
         }
         if e.names.is_some() {
             stats.bump("e2e_opt_names");
@@ -1642,9 +1646,11 @@ fn gen_e2e_rec(rng: &mut Rng) -> Vec<String> {
     b.finish(rng)
 }
 
-/// Is the known finding `id` recorded in `$VERIF_ROOT/KNOWN_FINDINGS.txt`? The two input families on which
-/// `--unstable-presymbolicate` violates the property are generated only then (the judge flags them with a tag that
-/// the `known:` line matches); without the line they would turn every run red.
+/// Is the known finding `id` recorded in `$VERIF_ROOT/KNOWN_FINDINGS.txt`? The input family on which
+/// `--unstable-presymbolicate` still violates the property (C19-sidecar-collision) is generated only then (the judge
+/// flags it with a tag that the `known:` line matches); without the line it would turn every run red. The second
+/// family of the improvement round (short build ids, C19-presym-badcodeid) is repaired (`fix:` 4dd060e3) and
+/// generated unconditionally.
 fn known_listed(id: &str) -> bool {
     static TEXT: OnceLock<String> = OnceLock::new();
     let text = TEXT.get_or_init(|| {
@@ -1654,11 +1660,11 @@ fn known_listed(id: &str) -> bool {
     text.lines().any(|l| l.starts_with("known:") && l.contains(&format!("\"id\":\"{id}\"")))
 }
 
-/// may `opt presym` be added to these op lines?
+/// may `opt presym` be added to these op lines? (not when two mapped files share their identity, unless the known
+/// finding C19-sidecar-collision is recorded)
 fn presym_allowed(ops: &[String]) -> bool {
     let mut fixtures_seen: Vec<&str> = Vec::new();
     let mut twins = false;
-    let mut tiny_id = false;
     for l in ops {
         let w: Vec<&str> = l.split_whitespace().collect();
         if w.first() != Some(&"file") {
@@ -1672,17 +1678,10 @@ fn presym_allowed(ops: &[String]) -> bool {
                 }
                 fixtures_seen.push(w[5]);
             }
-            Some("gen") => {
-                if let Some(b) = w.get(11).and_then(|b| b.strip_prefix("b:")) {
-                    if b.len() <= 8 {
-                        tiny_id = true;
-                    }
-                }
-            }
             _ => {}
         }
     }
-    (!twins || known_listed("C19-sidecar-collision")) && (!tiny_id || known_listed("C19-presym-badcodeid"))
+    !twins || known_listed("C19-sidecar-collision")
 }
 
 /// invocation variants and `.dbg` companions: none of them may change the outcome
@@ -1907,7 +1906,7 @@ fn boundary_e2e() -> Vec<Case> {
     variant("dbg-same", vec!["dbg 0 same".to_string()], false, &mut v);
     variant("dbg-stale", vec!["dbg 0 stale".to_string()], false, &mut v);
     variant("dbg-stale-reloc", vec!["dbg 0 stale".to_string()], true, &mut v);
-    // --- the two known findings of `--unstable-presymbolicate` (generated once their `known:` lines exist) ---
+    // --- the known finding of `--unstable-presymbolicate` (generated once its `known:` line exists) ---
     if known_listed("C19-sidecar-collision") {
         let mut b = E2eBuilder::new();
         let (spec, expect) = gen_spec(&mut rng, Some((100..120).collect()));
@@ -1918,11 +1917,33 @@ fn boundary_e2e() -> Vec<Case> {
         b.extras.push("opt presym".to_string());
         v.push(Case { name: "b-known-sidecar-collision".to_string(), ops: b.finish(&mut rng) });
     }
-    if known_listed("C19-presym-badcodeid") {
+    // --- repaired defect C19-presym-badcodeid: presymbolication of libraries whose code id text does not parse
+    // (ELF build ids of at most 4 bytes), reads back as another type (5-8 bytes, 16 decimal-only bytes), or is absent ---
+    let tiny: Vec<(&str, Option<Vec<u8>>)> = vec![
+        ("bid1", Some(vec![0xab])),
+        ("bid4", Some(vec![1, 2, 3, 4])),
+        ("bid5", Some(vec![0x01, 0x23, 0x45, 0x67, 0x89])),
+        ("bid8", Some(vec![0x01, 0x23, 0x45, 0x67, 0x89, 0xab, 0xcd, 0xef])),
+        ("bid16dec", Some(vec![0x12; 16])),
+        ("nobid", None),
+    ];
+    for (tag, bid) in tiny {
         let mut b = E2eBuilder::new();
-        b.add_gen(&mut rng, "d0/libtiny.so", true, Some(vec![1, 2, 3, 4]), 2);
+        b.add_gen(&mut rng, "d0/libtiny.so", true, bid, 2);
+        let other = gen_bytes(&mut rng, 20);
+        b.add_gen(&mut rng, "d1/other.so", true, Some(other), 2);
         b.extras.push("opt presym".to_string());
-        v.push(Case { name: "b-known-presym-badcodeid".to_string(), ops: b.finish(&mut rng) });
+        v.push(Case { name: format!("b-presym-{tag}"), ops: b.finish(&mut rng) });
+    }
+    {
+        // the recording itself names the short id (MMAP2 build id), relative paths, other output names
+        let mut b = E2eBuilder::new();
+        let i = b.add_gen(&mut rng, "reloc/libtiny.so", true, Some(vec![9, 9, 9]), 2);
+        b.rec(i, "m", &[9, 9, 9]);
+        b.extras.push("opt presym".to_string());
+        b.extras.push("opt relcwd".to_string());
+        b.extras.push(format!("opt names {} {}", hex(b"x"), hex(b"x.gz")));
+        v.push(Case { name: "b-presym-bid3-rec-relcwd".to_string(), ops: b.finish(&mut rng) });
     }
     v
 }
